@@ -115,7 +115,7 @@ PROPS = {
     },
     'C19': {
         'level': 'proof', 'extra': ['pyframe.csvsite'],
-        'explanation': '_infer_type equals the cell rule of the statement path by path (int()/float() acceptance uninterpreted and shared with the spec). Column assembly, padding, header modes and empty inputs are bounded (round trip through csv.writer).',
+        'explanation': "_infer_type equals the cell rule of the statement path by path (int()/float() acceptance uninterpreted and shared with the spec). The assembly in _read_csv_from_file is proved on the real text for an arbitrary number of records of arbitrary lengths and arbitrary cell texts, first record of one or two cells (three in the thorough tier), with and without header: csv.reader is the trusted lexical layer (modelled as an arbitrary sequence of lists of str cells), _infer_type is used by its discharged contract, and the exit assertion states - for an arbitrary data row - no records -> empty table; otherwise one column per cell of the first record, named by the header cells, one row per data record in order, cell (R, j) = the typed value of the text of cell j of that record, None when the record is too short: records are never dropped, merged or reordered and cells never shifted. read_csv's handling of its input (path vs file object, newline='', delimiter, encoding) is covered by call-site obligations (pyframe.csvsite); quoting, delimiters, terminators, non-ASCII digits, blank lines and wider files are bounded (round trip through csv.writer).",
         'trusted': ['csv.reader (lexical layer) - the statement defines it as the csv module does'],
     },
     'C20': {
